@@ -356,6 +356,18 @@ def sample_measures(T, rp, rng, n):
         fz = np.asarray(f(a * x + b * y), dtype=float)
         return rel(fz, a * fx + b * fy, max(abs(a) * np.abs(fx).max(), abs(b) * np.abs(fy).max()))
 
+    MAGS = (1e-15, 1e-9, 1e-4, 1e6, 1e12)   # magnitude classes: SI-unit strain rates, GPa-vs-Pa stiffnesses, ...
+
+    def homogeneity(f, x, mag, deg=1):
+        """f(mag x) = mag^deg f(x), relative to the magnitude of the scaled result itself (no absolute floor:
+        an absolute threshold hidden in f is invisible on O(1) inputs)."""
+        fx = np.asarray(f(np.array(x, dtype=float)), dtype=float)
+        fs = np.asarray(f(mag * np.asarray(x, dtype=float)), dtype=float)
+        if fs.shape != fx.shape or not np.all(np.isfinite(fs)):
+            return float("inf")
+        scale = float(np.abs(fx).max()) * mag**deg
+        return 0.0 if scale == 0.0 else float(np.abs(fs - mag**deg * fx).max()) / scale
+
     sym6 = lambda: _sym6(rng)  # noqa: E731
     vec21 = lambda: rng.normal(size=21)  # noqa: E731
     lin = {
@@ -376,11 +388,13 @@ def sample_measures(T, rp, rng, n):
         for fn, (gen, f) in lin.items():
             x, y = gen(), gen()
             measure(fn, "linearity", lambda f=f, x=x, y=y: linearity(f, x, y, a, b), a=a, b=b, x=x.tolist(), y=y.tolist())
+            measure(fn, "homogeneity", lambda f=f, x=x: homogeneity(f, x, MAGS[t % len(MAGS)]), mag=MAGS[t % len(MAGS)], x=x.tolist())
         R1, R2 = rot(rng.integers(2**31)), rot(rng.integers(2**31))
         M, M2 = _sym6(rng), _sym6(rng)
         C, C2 = rp.tensor_from_table(M), rp.tensor_from_table(M2)  # elastic tensors built from TLC's table
         fro = float(np.sqrt((C**2).sum()))
         measure("rotate", "linearity", lambda: linearity(lambda z: T.rotate(z, R1), C, C2, a, b), a=a, b=b, M=M.tolist(), M2=M2.tolist(), R=R1.tolist())
+        measure("rotate", "homogeneity", lambda: homogeneity(lambda z: T.rotate(z, R1), C, MAGS[(t + 1) % len(MAGS)]), mag=MAGS[(t + 1) % len(MAGS)], M=M.tolist(), R=R1.tolist())
         # ---- rotation clauses
         rc = memo(lambda: T.rotate(C, R1))
         info = dict(M=M.tolist(), R1=R1.tolist(), R2=R2.tolist())
@@ -449,6 +463,14 @@ def sample_measures(T, rp, rng, n):
             return max(abs(float(got[k]) - el[k]) / na ** (k + 1) for k in range(3))
 
         measure("invariants_second_order", "invariants", invdev, A=A.tolist())
+        mg = MAGS[(t + 2) % len(MAGS)]
+
+        def invhom():  # I_k(s A) = s^k I_k(A), relative to the natural scale (s |A|)^k
+            i1, is_ = T.invariants_second_order(A), T.invariants_second_order(mg * A)
+            amax = float(np.abs(A).max())
+            return max(abs(float(is_[k]) - mg ** (k + 1) * float(i1[k])) / (mg * amax) ** (k + 1) for k in range(3))
+
+        measure("invariants_second_order", "homogeneity", invhom, A=A.tolist(), mag=mg)
         sv = np.linalg.svd(A, compute_uv=False)
         cond = float(sv[0] / sv[-1]) if sv[-1] > 0 else float("inf")
         if not cond <= 1e6:
@@ -463,6 +485,16 @@ def sample_measures(T, rp, rng, n):
             measure(fn, "polar-symmetric", lambda out=out: rel(out()[1], out()[1].T, na), k, **info)
             measure(fn, "polar-psd", lambda out=out: max(0.0, -float(np.linalg.eigvalsh((out()[1] + out()[1].T) / 2).min())) / na, k, **info)
             measure(fn, "polar-product", lambda out=out, left=left: rel(out()[1] @ out()[0] if left else out()[0] @ out()[1], A, na), k, **info)
+
+            def polhom(out=out, left=left):  # polar(s A) = (R, s S): the factors of a rescaled input
+                rs, ss = (np.asarray(z, dtype=float) for z in T.polar_decompose(mg * A, left))
+                if not (np.all(np.isfinite(rs)) and np.all(np.isfinite(ss))):
+                    return float("inf")
+                prod = ss @ rs if left else rs @ ss
+                amax = float(np.abs(A).max())
+                return max(float(np.abs(rs - out()[0]).max()), float(np.abs(ss - mg * out()[1]).max()) / (mg * amax), float(np.abs(prod - mg * A).max()) / (mg * amax))
+
+            measure(fn, "polar-homogeneity", polhom, k, mag=mg, **info)
     return ev, inp
 
 
